@@ -26,7 +26,8 @@ RULE = ("scope trees rooted at the module; each inner scope is a function, class
         "sampled: chains of three; Hypothesis: trees up to depth 4 with <= 2 children per scope and a "
         "second tracked name; two-name chains: pairs of statically legal single-name chains of 2-3 "
         "functions over 7 roles rendered into the SAME scopes (two captured-variable owners on one "
-        "chain; quick: a tenth, thorough: all). Each valid program runs under one configuration by rotation and all 8 "
+        "chain; quick: a tenth, thorough: all); one-scope trees, a fraction of two-scope chains and the class "
+        "towers once more with 12 distinguishable FALSY values written everywhere. Each valid program runs under one configuration by rotation and all 8 "
         "on a tenth. Non-trivial: >= 2 scopes touch x and one of them is nested in a scope that binds "
         "or declares x; distinct by (tree, initial binding)."
         % tuple(len(scope.ROLES[k]) for k in ("module", "func", "class", "lambda", "comp")))
@@ -114,14 +115,14 @@ def cpython_inlining_bug_shape(tree):
     return False
 
 
-def check_tree(part, tree, init, idx, second=None, overlay=None):
+def check_tree(part, tree, init, idx, second=None, overlay=None, falsy=False):
     if cpython_inlining_bug_shape(tree) or (second is not None and cpython_inlining_bug_shape(second)):
         part["discarded"]["cpython-comprehension-inlining-bug-shape"] += 1
         return None
     if overlay is not None:
         src = scope.render2(tree, overlay, init)
     else:
-        src = scope.render(tree, init, second)
+        src = scope.render(tree, init, second, falsy)
     try:
         compile(src, "<scope>", "exec")
     except SyntaxError:
@@ -134,10 +135,12 @@ def check_tree(part, tree, init, idx, second=None, overlay=None):
     part["evaluations"] += 1
     for node, path in scope.walk(tree):
         part["classes"]["%s:%s" % (node[0], node[1])] += 1
+    if falsy:
+        part["classes"]["falsy-values"] += 1
     if overlay is not None:
         part["classes"]["two-names-in-one-tree"] += 1
     if nontrivial(tree):
-        part["nontrivial"].add(key_hash(tree, init, second, overlay))
+        part["nontrivial"].add(key_hash(tree, init, second, overlay, falsy))
     cfgs = env.ALL_CFGS if idx % 10 == 0 else [env.ALL_CFGS[idx % 8]]
     status, failures, _ = check_program(src, cfgs, orig=o)
     part["extra"]["config_runs"] = part["extra"].get("config_runs", 0) + len(cfgs)
@@ -151,6 +154,8 @@ def check_tree(part, tree, init, idx, second=None, overlay=None):
 def _enum_shard(item):
     family, idx, nshards, fraction, seed = item
     part = new_part()
+    falsy = family.endswith("-falsy")
+    family = family.replace("-falsy", "")
     gen = {"chain1": scope.trees_chain1, "chain2": scope.trees_chain2, "sib2": scope.trees_sib2,
            "chain3": scope.trees_chain3, "chain4focus": scope.trees_chain4_focus,
            "classtowers": scope.trees_class_towers, "twonames": scope.trees_two_names}[family]
@@ -163,10 +168,10 @@ def _enum_shard(item):
         if family == "twonames":
             tree, overlay = tree
         for init in (True, False):
-            v = check_tree(part, tree, init, i, overlay=overlay)
+            v = check_tree(part, tree, init, i, overlay=overlay, falsy=falsy)
             if v and len(part["violations"]) < 3:
                 part["violations"].append(v)
-    if idx == 0 and family == "chain2":
+    if idx == 0 and family == "chain2" and not falsy:
         part["samples"].append(scope.render(("module", "assign", (("func", "assign_nl", (("comp", "target", ()),)),)), True))
     return part
 
@@ -205,6 +210,10 @@ def run(report):
     items += [(_enum_shard, ("chain4focus", i, ns, 1.0, seed + 3)) for i in range(ns)]
     items += [(_enum_shard, ("classtowers", i, 4, 1.0, seed + 4)) for i in range(4)]
     items += [(_enum_shard, ("twonames", i, ns, 0.1 if quick else 1.0, seed + 5)) for i in range(ns)]
+    # the same trees with FALSY values written everywhere (augmenting roles raise in the original and drop out)
+    items += [(_enum_shard, ("chain1-falsy", i, ns, 1.0, seed + 6)) for i in range(ns)]
+    items += [(_enum_shard, ("chain2-falsy", i, ns, 0.04 if quick else 0.5, seed + 7)) for i in range(ns)]
+    items += [(_enum_shard, ("classtowers-falsy", i, 4, 1.0, seed + 8)) for i in range(4)]
     items += [(_drawn_shard, (env.sub_seed(report.seed, "C06", i), 120 if quick else 5000)) for i in range(env.NPROC)]
     # host dimension: the symbol-table walk has version-specific paths
     from .. import hosts
